@@ -47,7 +47,7 @@ func C17(tier string) int {
 }
 
 func c17Sequential(rep *report.Report, thorough bool) {
-	sc := newIdxScenario([]string{"e1", "e2"})
+	sc := newIdxScenario([]string{"e1", "e1x"})
 	depth := 1
 	if thorough {
 		depth = 2
@@ -65,7 +65,7 @@ func c17Sequential(rep *report.Report, thorough bool) {
 		wg.Add(1)
 		go func() {
 			defer wg.Done()
-			wsc := newIdxScenario([]string{"e1", "e2"})
+			wsc := newIdxScenario([]string{"e1", "e1x"})
 			ops := wsc.Ops()
 			dir := fmt.Sprintf("%s/w%d", ex.Dir, wk)
 			_ = os.MkdirAll(dir, 0o755)
